@@ -498,6 +498,9 @@ where
                 ev.n = 0;
             }
             "par_drain" | "into_par_iter" => {
+                if ev.n == 2 {
+                    ev.n = 1; // (the panicking-consumer variant is exercised on maps)
+                }
                 use rayon::prelude::*;
                 let pool = rayon::ThreadPoolBuilder::new().num_threads(ev.j.max(1) as usize).build().unwrap();
                 let into = ev.op == "into_par_iter";
